@@ -149,12 +149,13 @@ class Builder:
         if k == "eof":
             self.ev(f"eof {c}")
         elif k == "reset":
-            self.ev(f"rerr {c} hard")
+            self.ev(f"rerr {c} " + self.rng.choice(["hard", "hard", "hardT", "hardU", "hardN", "hardP", "hardA", "hardF", "hardO"]))
         elif k == "soft-eof":
-            self.ev(f"rerr {c} soft")
+            self.ev(f"rerr {c} " + self.rng.choice(["soft", "soft", "softB", "softS", "softI", "softW"]))
             self.ev(f"eof {c}")
         else:
-            self.ev(f"wr {c} " + ("hard" if k == "wr" else "soft,hard"))
+            hk = self.rng.choice(["hard", "hard", "hardT", "hardU", "hardN", "hardR", "hardO"])
+            self.ev(f"wr {c} " + (hk if k == "wr" else self.rng.choice(["soft", "softB", "softS", "softI"]) + "," + hk))
             self.ev(f"block {c} 0")
             self.ev(f"rx {c} " + nodegen.dwr(self.n(), self.n(), "peer1.x"))
             if self.ready(c):
@@ -342,7 +343,8 @@ def during_scenarios() -> list[str]:
     handler then raises, or answers): judged by the direct oracle only (the model is sequential)."""
     out = []
     cer1 = nodegen.cer("peer1.x", "4", 601, 602)
-    for fault in ("eof_1", "rerr_1_hard", "rerr_1_soft+eof_1", "wr_1_hard", "wr_1_soft,hard+tick"):
+    for fault in ("eof_1", "rerr_1_hard", "rerr_1_hardT", "rerr_1_soft+eof_1", "rerr_1_softB+eof_1", "wr_1_hard", "wr_1_hardU",
+                  "wr_1_soft,hard+tick"):
         for outcome in ("raise", "raise0", "answer"):
             cfg = config("b", 0).replace("NODE ", f"NODE during={fault};", 1)
             evs = ["start fail", "acc", f"rx 1 {cer1}", f"outcome 0 {outcome}", "rx 1 " + nodegen.ccr(603, 604), "tick"]
